@@ -51,37 +51,51 @@ const FRAGS: &[Frag] = &[
     // a three-line fragment, its inner line ends are not checkpoints because \def is still scanning there),
     // a one-character non-ASCII name, and names that are prefixes of each other (\a, \ab, \abc)
     f("\\endlinechar=-1 \n\\def\\\n{E0}\\endlinechar=13\\relax ", 0, 0, true, &["empty-name", "local"]),
-    f("\\def\\é{E1}", 0, 0, false, &["edge-name", "local"]),
-    f("\\def\\ab{E2}", 0, 0, false, &["edge-name", "local"]),
-    f("\\def\\abc{E3}", 0, 0, false, &["edge-name", "local"]),
+    f("\\def\\é{E1}", 0, 0, false, &["edge-name", "local", "pairs-only"]),
+    f("\\def\\ab{E2}", 0, 0, false, &["edge-name", "local", "pairs-only"]),
+    f("\\def\\abc{E3}", 0, 0, false, &["edge-name", "local", "pairs-only"]),
     // FIRST and LAST element of every indexed piece of state: registers 0 and 32767 / 255 directly, through
     // aliases, and as the current value inside an open group (the outer value sits in the save stack)
-    f("\\count0=70 \\count32767=71 \\dimen0=7pt \\dimen32767=8pt \\skip0=7pt plus 1pt \\skip32767=8pt minus 1pt \\toks0={t0}\\toks255={t255}\\count32766=76 \\toks254={t254}", 0, 0, false, &["first-last", "local"]),
-    f("\\countdef\\cy=0 \\cy=72 \\countdef\\cz=32767 \\cz=73 \\toksdef\\ty=0 \\ty={ty}\\toksdef\\tz=255 \\tz={tz}", 0, 0, false, &["first-last", "alias-variable", "local"]),
-    f("{\\count0=74 \\count32767=75 \\dimen32767=9pt \\skip32767=9pt plus 2fil \\toks0={g0}\\toks255={g255}", 1, 0, true, &["first-last", "local"]),
+    f("\\count0=70 \\count32767=71 \\dimen0=7pt \\dimen32767=8pt \\skip0=7pt plus 1pt \\skip32767=8pt minus 1pt \\toks0={t0}\\toks255={t255}\\count32766=76 \\toks254={t254}", 0, 0, false, &["first-last", "local", "pairs-only"]),
+    f("\\countdef\\cy=0 \\cy=72 \\countdef\\cz=32767 \\cz=73 \\toksdef\\ty=0 \\ty={ty}\\toksdef\\tz=255 \\tz={tz}", 0, 0, false, &["first-last", "alias-variable", "local", "pairs-only"]),
+    f("{\\count0=74 \\count32767=75 \\dimen32767=9pt \\skip32767=9pt plus 2fil \\toks0={g0}\\toks255={g255}", 1, 0, true, &["first-last", "local", "pairs-only"]),
     // code tables: characters 0, 127 (low table ends), 128 (high table begins), U+10FFFE
-    f("\\catcode0=11 \\catcode127=11 \\catcode128=11 \\catcode1114110=11 \\catcode1114111=11 \\catcode129=11 \\mathcode0=1 \\mathcode127=2 \\mathcode128=3 \\mathcode1114110=4 \\mathcode1114111=5 ", 0, 0, false, &["first-last", "high-code", "local"]),
+    f("\\catcode0=11 \\catcode127=11 \\catcode128=11 \\catcode1114110=11 \\catcode1114111=11 \\catcode129=11 \\mathcode0=1 \\mathcode127=2 \\mathcode128=3 \\mathcode1114110=4 \\mathcode1114111=5 ", 0, 0, false, &["first-last", "high-code", "local", "pairs-only"]),
     // streams 0 and 15 (stream 15 positioned after its first line), first and last element of an allocated array
-    f("\\openin 0 f \\openin 15 g \\read 15 to \\rz ", 0, 0, false, &["first-last", "stream", "read", "local"]),
-    f("\\arr 0=5 \\arr 2=6 ", 0, 0, false, &["first-last", "alloc", "local"]),
+    f("\\openin 0 f \\openin 15 g \\read 15 to \\rz ", 0, 0, false, &["first-last", "stream", "read", "local", "pairs-only"]),
+    f("\\arr 0=5 \\arr 2=6 ", 0, 0, false, &["first-last", "alloc", "local", "pairs-only"]),
     // integers on both sides of every width boundary of the binary formats (MessagePack fixint / 8 / 16 / 32 bits,
     // bincode varint 250/251, 2^16, 2^32), largest dimensions, all glue orders, largest \\mathchardef and \\chardef
-    f("\\count100=127 \\count101=128 \\count102=250 \\count103=251 \\count104=255 \\count105=256 \\count106=65535 \\count107=65536 \\count108=2147483647 \\count109=-32 \\count110=-33 \\count111=-128 \\count112=-129 \\count113=-32768 \\count114=-32769 \\count115=-2147483647 \\dimen2=16383.99998pt \\dimen3=-16383.99998pt \\skip2=1pt plus 16383fill minus 1filll \\skip3=-1pt plus -2fil \\mathchardef\\i=32767 \\chardef\\h=1114111 ", 0, 0, false, &["width-boundary", "local"]),
+    f("\\count100=127 \\count101=128 \\count102=250 \\count103=251 \\count104=255 \\count105=256 \\count106=65535 \\count107=65536 \\count108=2147483647 \\count109=-32 \\count110=-33 \\count111=-128 \\count112=-129 \\count113=-32768 \\count114=-32769 \\count115=-2147483647 \\dimen2=16383.99998pt \\dimen3=-16383.99998pt \\skip2=1pt plus 16383fill minus 1filll \\skip3=-1pt plus -2fil \\mathchardef\\i=32767 \\chardef\\h=1114111 ", 0, 0, false, &["width-boundary", "local", "pairs-only"]),
     // 3- and 4-byte characters in names, bodies and token lists, a non-ASCII active character; a stream on a file
     // with a non-ASCII name, on an empty file and on a blank-only file
-    f("\\def\\€{€3}\\def\\😀{😀4}\\toks2={é€😀}\\catcode`\\√=13 \\def√{AE}", 0, 0, false, &["non-ascii", "local"]),
-    f("\\openin 5 fé \\openin 6 e \\openin 7 b ", 0, 0, false, &["non-ascii", "empty-file", "stream"]),
+    f("\\def\\€{€3}\\def\\😀{😀4}\\toks2={é€😀}\\catcode`\\√=13 \\def√{AE}", 0, 0, false, &["non-ascii", "local", "pairs-only"]),
+    f("\\openin 5 fé \\openin 6 e \\openin 7 b ", 0, 0, false, &["non-ascii", "empty-file", "stream", "pairs-only"]),
     // every prefix at once, globally, inside a group
     f("{\\global\\long\\outer\\def\\mq#1{q#1}", 1, 0, false, &["local"]),
     // a recoverable error: fatal in the default \\errorstopmode (no checkpoint then), recovered and RECORDED in the
     // state (errormode::Component::errors) after \\scrollmode
-    f(RECOVERABLE_ERROR, 0, 0, false, &["recovered-error"]),
+    f(RECOVERABLE_ERROR, 0, 0, false, &["recovered-error", "pairs-only"]),
+    // CONTAINERS with >= 3-5 DISTINCT elements in a non-sorted order, observed order-sensitively after the restore:
+    // delimiters of 1..5 distinct tokens (Nevec / Matcher), 3 prefix tokens + two delimited parameters, `#{`
+    f("\\def\\da#1a{[#1]}\\def\\db#1ab{[#1]}\\def\\dc#1abc{[#1]}\\def\\dd#1abcd{[#1]}\\def\\de#1abcde{[#1]}\\def\\dp xyz#1-=>#2.{(#1/#2)}\\def\\dh#1#{<#1>}", 0, 0, false, &["long-delimiter", "macro-params", "local", "pairs-only"]),
+    // token list of 5 distinct tokens, replacement text that interleaves 3 parameters with 3 tokens, 3 singletons and 3 arrays assigned out of order
+    f("\\toks3={zyxwv}\\def\\dr#1#2#3{#3c#1b#2a}\\ny=32 \\nx=31 \\n=30 \\ax 1=41 \\arr 2=43 \\ax 0=40 \\ay 0=44 ", 0, 0, false, &["containers", "alloc", "local", "pairs-only"]),
+    // three open groups, each saving different values of several variables and commands (save-stack lists and command groups of 3-4 entries)
+    f("{\\count1=21 \\count2=22 \\count3=23 \\count4=24 {\\count1=31 \\dimen1=5pt \\def\\a{x1}\\def\\ab{x2}\\def\\abc{x3}\\def\\me{x4}{\\count1=41 \\count3=43 \\toks1={g3}\\def\\ab{y2}\\fa ", 3, 0, false, &["containers", "three-groups", "def-a", "font", "local", "pairs-only"]),
+    // three more streams, read from in an order different from their numbers
+    f("\\openin 1 f \\openin 2 g \\openin 4 fé \\read 2 to \\ra \\read 1 to \\rb \\read 1 to \\rc ", 0, 0, false, &["containers", "stream", "read", "local", "pairs-only"]),
+    // three active characters defined in non-alphabetic order
+    f("\\catcode`\\?=13 \\catcode`\\!=13 \\def?{Q}\\def~{T3}\\def!{B}", 0, 0, false, &["containers", "active-def", "local", "pairs-only"]),
+    // three open conditionals of three kinds, and the only sequence of \\or / \\else / \\fi that closes them silently in this order
+    f("\\iftrue \\iffalse\\else \\ifcase 2 \\or\\or ", 0, 3, false, &["containers", "three-conditionals", "pairs-only"]),
+    f("\\or wrong\\fi \\fi \\else wrong\\fi ", 0, -3, false, &["pairs-only"]),
     // macro shapes: every optional part of a serialised macro (prefix tokens, parameters, replacement) empty in
     // one fragment and non-empty in another; an empty macro as a saved outer meaning and as an active character
-    f("\\def\\me{}\\def\\gobble#1{}\\def\\mp ab{}", 0, 0, false, &["macro-shape", "local"]),
-    f("\\def\\mn#1#2#3#4#5#6#7#8#9{#9#1}\\def\\mh#1{a##b}\\def\\md xy#1.#2{[#2#1]}", 0, 0, false, &["macro-shape", "macro-params", "local"]),
-    f("\\def\\me{}{\\def\\me{X}", 1, 0, false, &["macro-shape", "local"]),
-    f("\\def~{}", 0, 0, false, &["macro-shape", "active-def", "local"]),
+    f("\\def\\me{}\\def\\gobble#1{}\\def\\mp ab{}", 0, 0, false, &["macro-shape", "local", "pairs-only"]),
+    f("\\def\\mn#1#2#3#4#5#6#7#8#9{#9#1}\\def\\mh#1{a##b}\\def\\md xy#1.#2{[#2#1]}", 0, 0, false, &["macro-shape", "macro-params", "local", "pairs-only"]),
+    f("\\def\\me{}{\\def\\me{X}", 1, 0, false, &["macro-shape", "local", "pairs-only"]),
+    f("\\def~{}", 0, 0, false, &["macro-shape", "active-def", "local", "pairs-only"]),
     f("\\countdef\\f=5 \\f=55 ", 0, 0, true, &["alias-variable", "local"]),
     f("\\toksdef\\g=6 \\g={tk}", 0, 0, false, &["alias-variable", "local"]),
     f("\\chardef\\h=72 ", 0, 0, false, &["chardef", "local"]),
@@ -123,10 +137,10 @@ const FINDING_RECORDED_ERROR: &str = "D7b-json-recorded-error";
 
 /// Line 0 of every program (before the first checkpoint): names that the observer reads with \the
 /// must be defined, because \the of an undefined name is a todo!() in texcraft.
-const PRELUDE: &str = "\\countdef\\f=9 \\toksdef\\g=9 \\mathchardef\\i=1 \\chardef\\hh=72 \\newInt\\n \\newIntArray\\arr 3 ";
+const PRELUDE: &str = "\\countdef\\f=9 \\toksdef\\g=9 \\mathchardef\\i=1 \\chardef\\hh=72 \\newInt\\n \\newIntArray\\arr 3 \\newInt\\nx \\newIntArray\\ax 2 \\newInt\\ny \\newIntArray\\ay 1 ";
 
 /// Prints every target. Each item is safe whether or not the name is defined.
-const OBSERVE: &str = ";\\a;\\b;\\c\\hh;\\d\\zz{Z}\\zz;\\e;\\the\\f;\\the\\g;\\h;\\the\\i;\\m12.;\\newname;\\é;\\ab;\\abc;\\firstseeninq;\\me;\\gobble x;\\mp ab;\\mn123456789;\\mh x;\\md xy1.2;\\the\\count0 ;\\the\\count32767 ;\\the\\dimen0 ;\\the\\dimen32767 ;\\the\\skip0 ;\\the\\skip32767 ;\\the\\toks0 ;\\the\\toks255 ;\\the\\catcode0 ;\\the\\catcode127 ;\\the\\catcode128 ;\\the\\catcode1114110 ;\\the\\catcode1114111 ;\\the\\mathcode0 ;\\the\\mathcode127 ;\\the\\mathcode128 ;\\the\\mathcode1114110 ;\\the\\mathcode1114111 ;\\ifeof 0 c\\else o\\fi;\\ifeof 15 c\\else o\\fi;\\rz;\\the\\arr 0 ;\\the\\arr 2 ;\\the\\count32766 ;\\the\\toks254 ;\\the\\catcode129 ;\\the\\count100 ;\\the\\count101 ;\\the\\count102 ;\\the\\count103 ;\\the\\count104 ;\\the\\count105 ;\\the\\count106 ;\\the\\count107 ;\\the\\count108 ;\\the\\count109 ;\\the\\count110 ;\\the\\count111 ;\\the\\count112 ;\\the\\count113 ;\\the\\count114 ;\\the\\count115 ;\\the\\dimen2 ;\\the\\dimen3 ;\\the\\skip2 ;\\the\\skip3 ;\\€;\\😀;\\the\\toks2 ;√;\\ifeof 5 c\\else o\\fi;\\ifeof 6 c\\else o\\fi;\\ifeof 7 c\\else o\\fi;\\mq x;\\the\\n;\\the\\arr 1 ;\\r;\\ifeof 3 c\\else o\\fi;\\the\\count1 ;\\the\\dimen1 ;\\the\\skip1 ;\\the\\toks1 ;\\the\\count5 ;\\the\\toks6 ;\\the\\catcode`\\| ;\\the\\catcode`\\é ;\\the\\mathcode`\\k ;\\the\\mathcode`\\é ;\\the\\endlinechar ;\\the\\globaldefs ;\\the\\year ;\\the\\month ;\\the\\tracingmacros ;\\the\\dumpFormat ;\\the\\dumpValidate ;\\probefont;~;|;";
+const OBSERVE: &str = ";\\a;\\b;\\c\\hh;\\d\\zz{Z}\\zz;\\e;\\the\\f;\\the\\g;\\h;\\the\\i;\\m12.;\\newname;\\é;\\ab;\\abc;\\firstseeninq;\\me;\\gobble x;\\mp ab;\\mn123456789;\\mh x;\\md xy1.2;\\the\\count0 ;\\the\\count32767 ;\\the\\dimen0 ;\\the\\dimen32767 ;\\the\\skip0 ;\\the\\skip32767 ;\\the\\toks0 ;\\the\\toks255 ;\\the\\catcode0 ;\\the\\catcode127 ;\\the\\catcode128 ;\\the\\catcode1114110 ;\\the\\catcode1114111 ;\\the\\mathcode0 ;\\the\\mathcode127 ;\\the\\mathcode128 ;\\the\\mathcode1114110 ;\\the\\mathcode1114111 ;\\ifeof 0 c\\else o\\fi;\\ifeof 15 c\\else o\\fi;\\rz;\\the\\arr 0 ;\\the\\arr 2 ;\\the\\count32766 ;\\the\\toks254 ;\\the\\catcode129 ;\\the\\count100 ;\\the\\count101 ;\\the\\count102 ;\\the\\count103 ;\\the\\count104 ;\\the\\count105 ;\\the\\count106 ;\\the\\count107 ;\\the\\count108 ;\\the\\count109 ;\\the\\count110 ;\\the\\count111 ;\\the\\count112 ;\\the\\count113 ;\\the\\count114 ;\\the\\count115 ;\\the\\dimen2 ;\\the\\dimen3 ;\\the\\skip2 ;\\the\\skip3 ;\\€;\\😀;\\the\\toks2 ;√;\\ifeof 5 c\\else o\\fi;\\ifeof 6 c\\else o\\fi;\\ifeof 7 c\\else o\\fi;\\mq x;\\the\\n;\\the\\arr 1 ;\\r;\\ifeof 3 c\\else o\\fi;\\the\\count1 ;\\the\\dimen1 ;\\the\\skip1 ;\\the\\toks1 ;\\the\\count5 ;\\the\\toks6 ;\\the\\catcode`\\| ;\\the\\catcode`\\é ;\\the\\mathcode`\\k ;\\the\\mathcode`\\é ;\\the\\endlinechar ;\\the\\globaldefs ;\\the\\year ;\\the\\month ;\\the\\tracingmacros ;\\the\\dumpFormat ;\\the\\dumpValidate ;\\probefont;~;|;\\the\\count2 ;\\the\\count3 ;\\the\\count4 ;\\the\\toks3 ;\\dr 123;\\the\\nx ;\\the\\ny ;\\the\\ax 0 ;\\the\\ax 1 ;\\the\\ay 0 ;!;?;\\ifeof 1 c\\else\\read 1 to \\rd [\\rd]\\fi;\\ifeof 2 c\\else\\read 2 to \\rd [\\rd]\\fi;\\ifeof 4 c\\else\\read 4 to \\rd [\\rd]\\fi;\\ra;\\rb;\\rc;\\da 1a;\\db 1ba2ab;\\dc 1acb2abc;\\dd 1adbc2abcd;\\de 1aebcd2abcde;\\dp xyz1=->2-=>3.;\\dh 12{};";
 
 /// two plain lines first: a restored lexer that forgets it is past its first line merges them
 const FILE_F: &str = "r1\nr2\n{r3\nr4}\nr5\n";
@@ -536,6 +550,10 @@ fn count_state(frs: &[&Frag], acc: &mut Acc) -> bool {
         ("empty-name", "empty_control_sequence_name_defined"),
         ("first-last", "first_or_last_element_of_indexed_state_set"),
         ("width-boundary", "integer_width_boundary_values_set"),
+        ("long-delimiter", "macro_delimiter_of_3_or_more_distinct_tokens_called_after_checkpoint"),
+        ("containers", "container_with_3_or_more_distinct_elements_out_of_order"),
+        ("three-groups", "three_open_groups_saving_different_values"),
+        ("three-conditionals", "three_open_conditionals_of_different_kinds"),
         ("non-ascii", "three_and_four_byte_characters_in_state"),
         ("empty-file", "stream_on_empty_or_blank_file"),
         ("macro-shape", "macro_with_an_empty_part_defined"),
@@ -846,13 +864,16 @@ fn main() {
     ctx.assume("a checkpoint is taken only when run(P1) returned without a fatal error and with all input consumed (the property's precondition); programs whose P1 ends in an error are skipped at that boundary");
     ctx.assume("what is serde(skip) by design is re-attached after loading exactly as vtex::checkpoint does: the in-memory file system (same Rc), a fresh scripted terminal with no lines, log sinks, the step budget, the working directory");
     ctx.assume("the reference behaviour is the same VM continuing without a checkpoint (run(P1); run(P2;Q)), which is the property's statement; the single-source run(P;Q) is compared too, and a difference caused by splitting the source alone (the last command of P1 scans past its line end, so input is not exhausted at that boundary in the single-source run) is counted in 'split_alone_changes_behaviour' and as an outcome class, never attributed to serialisation");
-    ctx.assume("line 0 of every fragment program pre-defines the names that the observer reads with \\the (\\f \\g \\i \\hh \\n \\arr): \\the of an undefined name is a todo!() in texcraft (C09); the first checkpoint is after line 1");
+    ctx.assume("line 0 of every fragment program pre-defines the names that the observer reads with \\the (\\f \\g \\i \\hh \\n \\nx \\ny \\arr \\ax \\ay): \\the of an undefined name is a todo!() in texcraft (C09); the first checkpoint is after line 1");
     ctx.assume("oracle 2 is recorded, not judged (a behaviour-preserving loader may normalise the representation): differences appear as outcome classes and in the counter 'restored_vm_serialises_differently'; a panic while serialising the restored VM is judged. It compares canonical JSON: the macro table referenced by index and the per-level lists of the save stack are hash-ordered in the subject and are compared as (multi)sets");
     ctx.assume("hash order inside the subject cannot be seeded: a failing program is re-executed 5 times and reported if any execution fails");
     ctx.assume("X (outside): checkpoints with pending input; \\dump is not a built-in");
 
     let all: Vec<usize> = (0..FRAGS.len()).collect();
     let core: Vec<usize> = (0..FRAGS.len()).filter(|i| FRAGS[*i].core).collect();
+    // narrowly targeted fragments (one container / limit / shape each) meet every other fragment in pairs-full; the
+    // 3-fragment programs of the thorough tier run over the general fragments
+    let general: Vec<usize> = (0..FRAGS.len()).filter(|i| FRAGS[*i].core || !FRAGS[*i].tags.contains(&"pairs-only")).collect();
     let quick = ctx.quick();
 
     // F1: single fragments, all oracles
@@ -871,7 +892,7 @@ fn main() {
     if quick {
         run_frag_family(&mut ctx, "triples-core", &format!("every program of 3 fragments over the core alphabet ({} fragments, one per state component); checkpoint after each of the 3 lines; three formats", core.len()), core.clone(), 3, JsonOracle::Never, false);
     } else {
-        run_frag_family(&mut ctx, "triples-full", &format!("every program of 3 fragments over the full alphabet ({} fragments); checkpoint after line 2 and after line 3 (the state after line 1 with every 1-fragment continuation is in pairs-full); three formats; canonical-JSON comparison at the last boundary of the all-core programs", all.len()), all.clone(), 3, JsonOracle::CoreOnly, false);
+        run_frag_family(&mut ctx, "triples-full", &format!("every program of 3 fragments over the {} general fragments (the narrowly targeted ones – one container, limit or macro shape each – meet every other fragment in pairs-full); checkpoint after line 2 and after line 3 (the state after line 1 with every 1-fragment continuation is in pairs-full); three formats; canonical-JSON comparison at the last boundary of the all-core programs", general.len()), general.clone(), 3, JsonOracle::CoreOnly, false);
         run_frag_family(&mut ctx, "quads-core", &format!("every program of 4 fragments over the core alphabet ({} fragments); checkpoint after each of the 4 lines; three formats", core.len()), core.clone(), 4, JsonOracle::Never, false);
     }
     // F4: open \read streams
@@ -995,6 +1016,10 @@ fn main() {
         ("font_selected", "a font selector ran before the checkpoint"),
         ("allocated_variable", "\\newInt / \\newIntArray variable assigned"),
         ("macro_with_parameters", "macro with delimited and undelimited parameters"),
+        ("macro_delimiter_of_3_or_more_distinct_tokens_called_after_checkpoint", "macros with delimiters of 1..5 distinct tokens, 3 prefix tokens, two delimited parameters and #{ are defined before the checkpoint; the observer calls each with a near-miss (permuted) and a matching text"),
+        ("container_with_3_or_more_distinct_elements_out_of_order", "a token list, replacement text, allocator, stream table, active-character map, save-stack level or conditional stack holds >= 3 distinct elements in a non-sorted order at the checkpoint"),
+        ("three_open_groups_saving_different_values", "three nested groups are open at the checkpoint, each holding saved values of several variables and commands"),
+        ("three_open_conditionals_of_different_kinds", "\\iftrue, the \\else branch of \\iffalse and case 2 of \\ifcase are open at the checkpoint"),
         ("integer_width_boundary_values_set", "register values on both sides of 2^7, 250/251, 2^8, 2^16, 2^31, -2^5, -2^7, -2^15, largest dimensions, fil/fill/filll set before the checkpoint"),
         ("three_and_four_byte_characters_in_state", "3- and 4-byte characters in control-sequence names, macro bodies, token lists, an active character or a file name before the checkpoint"),
         ("stream_on_empty_or_blank_file", "a read stream on an empty file and on a blank-only file is open at the checkpoint"),
